@@ -25,6 +25,7 @@ func runC12Gaps2(c *eng.Ctx) {
 	c12gSealedGate(c)
 	c12gCubbyholeID(c)
 	c12gCubbyholeSalt(c)
+	c12gLeaseNamespace(c)
 	c12gPolicyStoreNamespace(c)
 }
 
@@ -1215,4 +1216,104 @@ func c12gWalkCallbackComparisons(c *eng.Ctx) {
 		}
 	}
 	c.Floor(nil, "comparisons of mount-tree keys with paths inside walk callbacks", n, 3)
+}
+
+// ---------- C12.5/C12.1 leases are read and written in the namespace of the request: every
+// ExpirationManager.leaseView(ns) in a function that takes a context uses the namespace of that
+// context (namespace.FromContext) or the namespace recorded in the lease entry it persists /
+// deletes; a namespace parsed out of the lease ID (client input of sys/leases/renew|revoke|…)
+// is not a source. leaseEntry.namespace itself is written only by the tabled functions, and by
+// loadEntryInternal only with the context's namespace
+func c12gLeaseNamespace(c *eng.Ctx) {
+	lv := mustStatic(c, "vault.(*ExpirationManager).leaseView")
+	nsF := c.P.Field("vault.leaseEntry.namespace")
+	if nsF == nil {
+		c.Clause("R5", "C12.5")
+		c.Unresolved("vault.leaseEntry.namespace")
+		return
+	}
+	noCtx := map[string]string{
+		"vault.(*ExpirationManager).collectNamespaceLeases": "restore: called per namespace of the namespace store's own listing, no request involved",
+	}
+	c.Clause("R5", "C12.5")
+	n := 0
+	for _, s := range c.P.FindCalls(lv, nil) {
+		top := eng.TopFunc(s.Fn)
+		if strings.Contains(eng.FuncName(top), "esting") {
+			continue
+		}
+		n++
+		arg := s.Call.Common().Args[1]
+		site := "namespace a lease view is opened in"
+		hasCtx := false
+		for _, p := range top.Params {
+			if types.TypeString(p.Type(), nil) == "context.Context" {
+				hasCtx = true
+			}
+		}
+		if !hasCtx {
+			if why, ok := noCtx[eng.FuncName(top)]; ok {
+				if _, isParam := arg.(*ssa.Parameter); isParam {
+					c.OK(s.Fn, site, s.Call.Pos(), "tabled: "+why)
+					continue
+				}
+			}
+			c.Violation(s.Fn, site, s.Call.Pos(), "leaseView is opened by a function that has no request context and is not tabled: "+eng.ExprDeep(arg), nil)
+			continue
+		}
+		fromEntry := false
+		if ld, base := c14LoadOfField(arg, "namespace"); ld != nil {
+			if fa, ok := ld.X.(*ssa.FieldAddr); ok && eng.FieldVar(fa) == nsF {
+				_, fromEntry = base.(*ssa.Parameter) // the entry the function was asked to persist / delete
+			}
+		}
+		switch {
+		case c12gIsCtxNamespace(arg):
+			c.OK(s.Fn, site, s.Call.Pos(), "namespace.FromContext of the function's context")
+		case fromEntry:
+			c.OK(s.Fn, site, s.Call.Pos(), "namespace recorded in the lease entry handed in")
+		default:
+			c.Violation(s.Fn, site, s.Call.Pos(), "the lease view is opened in "+eng.ExprDeep(arg)+", which is neither the namespace of the request context nor the one recorded in the entry being written: a lease ID naming another namespace would be read / revoked from inside this one", nil)
+		}
+	}
+	c.Floor(nil, "ExpirationManager.leaseView calls", n, 6)
+	// writers of leaseEntry.namespace
+	c.Clause("R6", "C12.5")
+	writers := map[string]string{
+		"vault.(*ExpirationManager).loadEntryInternal":                   "ctx",
+		"vault.(*ExpirationManager).Register":                            "",
+		"vault.(*ExpirationManager).RegisterAuth":                        "",
+		"vault.(*ExpirationManager).CreateOrFetchRevocationLeaseByToken": "",
+		"vault.(*ExpirationManager).Renew":                               "",
+		"vault.(*ExpirationManager).RenewToken":                          "",
+		"vault.(*ExpirationManager).processRestore":                      "",
+		"vault.(*ExpirationManager).Restore":                             "",
+		"vault.(*ExpirationManager).inMemoryLeaseInfo":                   "",
+		"vault.(*ExpirationManager).leaseInfoForExport":                  "", // copy of the entry's own namespace
+		"vault.(*Core).AddIrrevocableLease":                              "", // test utility (expiration_testing_util_common.go)
+	}
+	nw := 0
+	for _, w := range c.P.FieldWriters(nsF) {
+		top := eng.FuncName(eng.TopFunc(w.Fn))
+		if strings.Contains(top, "esting") {
+			continue
+		}
+		nw++
+		how, ok := writers[top]
+		if !ok {
+			c.Violation(w.Fn, "writer{leaseEntry.namespace}", w.Store.Pos(), "the namespace recorded in a lease entry is set outside the tabled functions: "+eng.InstrStr(w.Store), nil)
+			continue
+		}
+		c.OK(w.Fn, "writer{leaseEntry.namespace}", w.Store.Pos(), "tabled writer")
+		if how == "ctx" {
+			c.Clause("R5", "C12.5")
+			if c12gIsCtxNamespace(w.Store.Val) {
+				c.OK(w.Fn, "loaded lease entry carries the request namespace", w.Store.Pos(), "namespace.FromContext of the loader's context")
+			} else {
+				c.Violation(w.Fn, "loaded lease entry carries the request namespace", w.Store.Pos(), "a lease entry loaded for a request is stamped with "+eng.ExprDeep(w.Store.Val)+" instead of the namespace of the request context: persist / delete / revoke of that entry would act in another namespace", nil)
+			}
+			c.Clause("R6", "C12.5")
+		}
+	}
+	c.Floor(nil, "writers of leaseEntry.namespace", nw, 3)
 }
